@@ -1,7 +1,150 @@
 import Mutagen.Driver.Util
+import Mutagen.Model.IgnoreMutagen
 namespace Mutagen.Driver.C14
+open Mutagen.Driver Mutagen.Model.IgnoreMutagen Mutagen.Model.Glob
+open Mutagen.Model.IgnoreCore hiding Str
 
-/-- Model-side handler for one line of the C14 correspondence stream. -/
-def handle (_line : String) : String := "unimplemented"
+/-!
+Lines (strings are hex of valid UTF-8, `-` = empty; pattern lists are comma
+separated, `-` = no patterns, `_` = the empty pattern):
+  `g <regular> <pattern> <name>`  → `<valid> <match|-> <agree|->`  doublestar.ValidatePattern / Match vs the
+                                    transcription `Doublestar.dsMatch`; when `regular` = 1 the third field says
+                                    whether the specification `Glob.gmatch` agrees with the transcription (the
+                                    harness prints 1 there, so a disagreement is a correspondence failure)
+  `p <pattern>`                   → `ok <neg><dirOnly><leaf> <pattern>` | `err <kind>`  newIgnorePattern
+  `i <dir> <path> <patterns>`     → `<status> <cont>` | `invalid <kind>`   NewIgnorer + Ignore
+  `v <dir> <path> <patterns>`     → the same through ignore.IgnoreVCS
+  `s <vcs> <patterns> <tree>`     → snapshot of a real scan, `path:kind,…` in preorder
+Tree: comma separated tokens `f:<name>` `l:<name>` `o:<name>` `d:<name>` `[` … `]`
+(the bracket pair after a `d:` token holds its children; children sorted by name).
+-/
+
+def decStr (s : String) : Option Str := do
+  let bs ← decHex s
+  let str ← String.fromUTF8? (ByteArray.mk bs.toArray)
+  pure str.toList
+
+def encStr (s : Str) : String := encHex (String.ofList s).toUTF8.toList
+
+def patList (s : String) : Option (List Str) :=
+  if s == "-" then some [] else
+  (s.splitOn ",").mapM fun t => if t == "_" then some [] else decStr t
+
+def showStatus : Status → String
+  | .nominal => "nominal" | .ignored => "ignored" | .unignored => "unignored"
+
+def showParseErr : ParseErr → String
+  | .empty => "empty" | .negatedEmpty => "negated-empty" | .root => "root"
+  | .rootDirectory => "root-directory" | .badPattern => "bad-pattern" | .panic => "panic"
+
+def bit (b : Bool) : String := if b then "1" else "0"
+
+/-- Recursive-descent parser of the tree tokens; fuel = number of tokens. -/
+def parseItems : Nat → List String → Option (List (Str × Node) × List String)
+  | 0, _ => none
+  | _ + 1, [] => some ([], [])
+  | fuel + 1, tok :: rest =>
+    if tok == "]" then some ([], tok :: rest) else
+    match tok.splitOn ":" with
+    | [k, h] =>
+      match decStr h with
+      | none => none
+      | some name =>
+        if k == "d" then
+          match rest with
+          | "[" :: rest1 =>
+            match parseItems fuel rest1 with
+            | some (cs, "]" :: rest2) =>
+              match parseItems fuel rest2 with
+              | some (sibs, r) => some ((name, Node.dir cs) :: sibs, r)
+              | none => none
+            | _ => none
+          | _ => none
+        else
+          let node? : Option Node := if k == "f" then some .file else if k == "l" then some .link
+            else if k == "o" then some .other else none
+          match node?, parseItems fuel rest with
+          | some node, some (sibs, r) => some ((name, node) :: sibs, r)
+          | _, _ => none
+    | _ => none
+
+def parseTree (s : String) : Option (List (Str × Node)) :=
+  if s == "-" then some [] else
+  let toks := s.splitOn ","
+  match parseItems (toks.length + 1) toks with
+  | some (cs, []) => some cs
+  | _ => none
+
+mutual
+def showEntries (prefixPath : Str) : List (Str × SEntry) → List String
+  | [] => []
+  | (name, e) :: rest => showEntry (joinable prefixPath ++ name) e ++ showEntries prefixPath rest
+def showEntry (path : Str) : SEntry → List String
+  | .file => [s!"{encStr path}:f"]
+  | .link => [s!"{encStr path}:l"]
+  | .untracked => [s!"{encStr path}:u"]
+  | .dir ph cs => s!"{encStr path}:{if ph then "p" else "d"}" :: showEntries path cs
+end
+
+def showSnapshot (e : SEntry) : String :=
+  match e with
+  | .dir _ cs => let l := showEntries [] cs; if l.isEmpty then "-" else ",".intercalate l
+  | _ => "bad-root"
+
+def ignoreLine (vcs : Bool) (d p pats : String) : String :=
+  match decStr p, patList pats with
+  | some path, some ps =>
+    if ps.any (fun q => !supported q) then "unsupported" else
+    match newIgnorer ps with
+    | .error e => s!"invalid {showParseErr e}"
+    | .ok ig =>
+      let dir := d == "1"
+      if vcs then
+        match vcsIgnore ig.ignore path dir with
+        | none => "panic"
+        | some (st, c) => s!"{showStatus st} {bit c}"
+      else
+        let (st, c) := ig.ignore path dir
+        s!"{showStatus st} {bit c}"
+  | _, _ => "bad-op"
+
+def handle (line : String) : String :=
+  match fields line with
+  | ["g", reg, p, n] =>
+    match decStr p, decStr n with
+    | some p, some n =>
+      if !supported p then "unsupported" else
+      match Mutagen.Model.Doublestar.dsMatch? p n with
+      | none => "fuel"
+      | some r =>
+        let rs := match r with | .yes => "1" | .no => "0" | .bad => "bad"
+        -- on regular patterns the transcription must agree with the specification
+        let agree := if reg == "1" then bit (valid p && r != .bad && gmatch p n == (r == .yes)) else "-"
+        s!"{bit (valid p)} {rs} {agree}"
+    | _, _ => "bad-op"
+  | ["p", p] =>
+    match decStr p with
+    | some p =>
+      if !supported p then "unsupported" else
+      match parse p with
+      | .ok q => s!"ok {bit q.negated}{bit q.directoryOnly}{bit q.matchLeaf} {encStr q.pattern}"
+      | .error e => s!"err {showParseErr e}"
+    | none => "bad-op"
+  | ["i", d, p, pats] => ignoreLine false d p pats
+  | ["v", d, p, pats] => ignoreLine true d p pats
+  | ["s", vcs, pats, tree] =>
+    match patList pats, parseTree tree with
+    | some ps, some cs =>
+      if ps.any (fun q => !supported q) then "unsupported" else
+      match newIgnorer ps with
+      | .error e => s!"invalid {showParseErr e}"
+      | .ok ig =>
+        let inner : IgnoreFn := ig.ignore
+        let ign : IgnoreFn := if vcs == "1" then
+            fun path dir => (vcsIgnore inner path dir).getD (.nominal, false)
+          else inner
+        showSnapshot (scanRoot ign cs)
+    | _, _ => "bad-op"
+  | _ => "bad-op"
 
 end Mutagen.Driver.C14
